@@ -5,9 +5,14 @@ From Coq Require Import ZArith NArith List Bool.
 From FG.gen Require Import Tables_gen.
 From FG Require GameTree Terminal PosImpl PvBuffers TTImpl TimeCtl UciModel.
 
+(* NA: initial best value of every node (AlphaBeta.v); (-MATE, MATE): the root window of AlphaBeta.root_rel /
+   root_fn = `alpha := ValueMin; beta := ValueMax` (site root_window_is_full); the draw / stalemate score of the
+   game-tree model is the literal 0 *)
 Lemma gametree_constants_dumped :
-  GameTree.MATE = c_value_checkmate /\ GameTree.MAXPLY = c_max_depth.
-Proof. split; reflexivity. Qed.
+  GameTree.MATE = c_value_checkmate /\ GameTree.MAXPLY = c_max_depth /\
+  GameTree.NA = c_value_na /\ (- GameTree.MATE)%Z = c_value_min /\ GameTree.MATE = c_value_max /\
+  c_value_draw = 0%Z.
+Proof. repeat split; reflexivity. Qed.
 
 Lemma terminal_constants_dumped :
   Terminal.MATE = c_value_checkmate /\ Terminal.DRAW = c_value_draw.
@@ -20,16 +25,29 @@ Proof. split; reflexivity. Qed.
 Lemma pvbuffers_constants_dumped : Z.of_nat PvBuffers.max_depth = c_max_depth.
 Proof. reflexivity. Qed.
 
+(* PvProofs.first_cmp: rootSearch starts with bestNodeValue = ValueNA; the value of a root move is ValueDraw or
+   -search(...), and search returns ValueNA itself (stopped) or something within [-ValueInf, ValueInf]:
+   each of them compares greater than ValueNA *)
+Lemma value_na_below_every_value :
+  (c_value_na < - c_value_inf)%Z /\ (c_value_na < c_value_draw)%Z /\ (- c_value_na > c_value_na)%Z.
+Proof. repeat split; reflexivity. Qed.
+
 Lemma ttimpl_constants_dumped :
   TTImpl.ValueInf = c_value_inf /\ TTImpl.ValueMax = c_value_max /\
   TTImpl.ValueCheckMate = c_value_checkmate /\ TTImpl.MaxDepth = c_max_depth /\
   TTImpl.ValueCheckMateThreshold = c_value_checkmate_threshold /\
   TTImpl.valueShift = c_value_shift /\
-  Z.of_N TTImpl.TtEntrySize = c_tt_entry_size /\ TTImpl.MaxSizeInMB = c_tt_max_size_mb.
+  Z.of_N TTImpl.TtEntrySize = c_tt_entry_size /\ TTImpl.MaxSizeInMB = c_tt_max_size_mb /\
+  TTImpl.ValueNA = c_value_na /\ TTImpl.ValueMin = c_value_min /\
+  TTImpl.moveMask = c_move_mask /\ TTImpl.valueMask = c_value_mask /\ Z.of_N TTImpl.MB = c_mb.
 Proof. repeat split; reflexivity. Qed.
 
-Lemma timectl_constants_dumped : Z.of_nat TimeCtl.MaxDepth = c_max_depth.
-Proof. reflexivity. Qed.
+(* GamePhaseMax: divisor of GamePhaseFactor in moves_left_float / moves_left_int; move_of: MoveOf() strips the
+   sort value with the engine's MoveMask *)
+Lemma timectl_constants_dumped :
+  Z.of_nat TimeCtl.MaxDepth = c_max_depth /\ TimeCtl.GamePhaseMax = c_game_phase_max /\
+  (forall m : N, TimeCtl.move_of m = N.land m c_move_mask).
+Proof. split; [reflexivity | split; [reflexivity | intro m; reflexivity]]. Qed.
 
 Lemma ucimodel_constants_dumped :
   Z.of_nat UciModel.MaxMoves = c_max_moves /\
